@@ -9,6 +9,7 @@ namespace Life.C01
 /-- Phase ↔ automaton stage. -/
 def stageRel : Phase → Stage → Prop
   | .fresh, st => st = .init
+  | .cell, st => st = .init
   | .pre, st => st = .preOpen
   | .ready, st => st = .preOk
   | .postStart, st => st = .psOpen
@@ -51,6 +52,8 @@ theorem Aux.congr {a a' : Actor} {s : St} (h1 : a'.sigVal = a.sigVal) (h2 : a'.s
 @[simp] theorem next_waitRet (s : St) (w : Nat) (b : Bool) : next s (.waitRet w b) = .ok s := rfl
 @[simp] theorem next_snap (s : St) (sn : Snap) : next s (.snap sn) = .ok s := rfl
 @[simp] theorem next_isLocal (s : St) : next s .isLocal = .ok s := rfl
+@[simp] theorem next_instant (s : St) : next s .instant = .ok s := rfl
+@[simp] theorem next_treeKill (s : St) : next s .treeKill = .ok { s with killed := true } := rfl
 @[simp] theorem next_stopRet (s : St) (b : Bool) (r : Reason) (ok : Bool) :
     next s (.stopRet b r ok) = .ok (if ok then { s with stopReq := true } else s) := by
   cases ok <;> rfl
@@ -386,8 +389,9 @@ theorem afterPre_sim (a : Actor) (s : St) (supOk : Bool) (r : Res)
   · split
     · split
       · exact failSpawn_sim _ _ _
-      · refine ⟨s, by simp [accepts_cons], Or.inr ⟨?_, hx.congr (by rfl) (by rfl) (by rfl)⟩⟩
-        simpa [stageRel, exitStage] using hst
+      · refine ⟨s, by simp [accepts_cons], Or.inr ⟨?_, ?_⟩⟩
+        · simpa [stageRel, exitStage] using hst
+        · exact hx.congr (by simp) (by simp) (by simp)
     · refine ⟨s, by simp [accepts_cons], Or.inr ⟨?_, hx.congr (by rfl) (by rfl) (by rfl)⟩⟩
       simpa [stageRel, exitStage] using hst
 
@@ -501,10 +505,55 @@ theorem opSpawn_sim (a : Actor) (s : St) (sup : Option Nat) (name : Option Strin
       · exact ⟨{ s with stage := .preOpen }, by simp [accepts_cons, next, hinit], hnew _ rfl rfl rfl rfl⟩
   · exact ⟨s, rfl, h⟩
 
+theorem beginPre_sim (a : Actor) (s : St) (hph : a.phase = .cell) (hinit : s.stage = .init) (hx : Aux a s) :
+    Sim next Inv s (beginPre a) := by
+  unfold beginPre
+  split
+  · refine Sim.andThen next (R1 := fun _ _ => True) ⟨s, by simp [handleSignal], trivial⟩ ?_
+    intro a1 s1 _
+    exact failSpawn_sim _ _ _
+  · exact ⟨{ s with stage := .preOpen }, by simp [accepts_cons, next, hinit],
+      Or.inr ⟨rfl, hx.kill, hx.stop, hx.drain⟩⟩
+
+theorem startInstant_sim (a : Actor) (s : St) (supOk : Bool) (hph : a.phase = .cell)
+    (hinit : s.stage = .init) (hx : Aux a s) : Sim next Inv s (startInstant a supOk) := by
+  unfold startInstant
+  · simp only []
+    split
+    · split
+      · split
+        · exact failSpawn_sim _ _ _
+        · refine Sim.andThen next (R1 := fun a1 s1 => s1 = s ∧ a1.phase = .cell ∧ Aux a1 s)
+            ⟨s, by simp, rfl, by simpa using hph, hx.congr (by simp) (by simp) (by simp)⟩ ?_
+          rintro a1 s1 ⟨rfl, h1, h2⟩
+          exact beginPre_sim a1 s1 h1 hinit h2
+      · exact beginPre_sim _ s hph hinit (hx.congr (by rfl) (by rfl) (by rfl))
+    · exact beginPre_sim _ s hph hinit (hx.congr (by rfl) (by rfl) (by rfl))
+
+theorem opSpawnInstant_sim (a : Actor) (s : St) (sup : Option Nat) (name : Option String) (nameFree : Bool)
+    (isLocal : Bool) (h : Inv a s) : Sim next Inv s (opSpawnInstant a sup name nameFree isLocal) := by
+  unfold opSpawnInstant
+  split
+  · rename_i hph
+    split
+    · exact ⟨s, by simp [accepts_cons], h⟩
+    · rcases h with h | ⟨hs, hx⟩
+      · simp [hph] at h
+      · rw [hph] at hs
+        split
+        · exact ⟨s, by simp [accepts_cons], Or.inr ⟨hs, hx.congr (by rfl) (by rfl) (by rfl)⟩⟩
+        · exact ⟨s, by simp [accepts_cons], Or.inr ⟨hs, hx.congr (by rfl) (by rfl) (by rfl)⟩⟩
+  · exact ⟨s, rfl, h⟩
+
 theorem opPollSpawn_sim (a : Actor) (s : St) (supOk : Bool) (h : Inv a s) :
     Sim next Inv s (opPollSpawn a supOk) := by
   unfold opPollSpawn
   split
+  · rename_i hph
+    rcases h with h | ⟨hs, hx⟩
+    · simp [hph] at h
+    · rw [hph] at hs
+      exact startInstant_sim a s supOk hph hs hx
   · rename_i hph
     rcases h with h | ⟨hs, hx⟩
     · simp [hph] at h
@@ -529,17 +578,21 @@ theorem opPollSpawn_sim (a : Actor) (s : St) (supOk : Bool) (h : Inv a s) :
 theorem opDropSpawn_sim (a : Actor) (s : St) (h : Inv a s) : Sim next Inv s (opDropSpawn a) := by
   unfold opDropSpawn
   split
+  · refine ⟨s, ?_, Or.inl (by simp [Actor.dropPorts])⟩
+    simp only [andThen_snd, evs_append, evs_cons_ev, evs_cons_note, evs_nil]
+    rw [List.cons_append, List.nil_append, accepts_cons_ok next _ (next_dropped s)]
+    rw [accepts_append next _ (cleanup_acc _ none _).1]
+    rfl
   · rename_i hph
     rcases h with h | ⟨hs, hx⟩
     · simp [hph] at h
     · rw [hph] at hs
       have hst : s.stage = openStage .preStart := hs
       refine ⟨{ s with stage := .dead }, ?_, Or.inl ?_⟩
-      · simp only [andThen_snd, evs_append, evs_cons_ev, evs_nil]
+      · simp only [andThen_snd, evs_append, evs_cons_ev, evs_nil, evs_ite_note, List.append_nil]
         rw [List.cons_append, List.cons_append, List.nil_append]
         rw [accepts_cons_ok next _ (next_dropped s), accepts_cons_ok next _ (next_cancelled_open s _ hst)]
-        rw [accepts_append next _ (cleanup_acc _ none _).1]
-        rfl
+        exact (cleanup_acc _ none _).1
       · simp [Actor.dropPorts]
   · exact ⟨s, rfl, h⟩
 
@@ -581,19 +634,31 @@ theorem apiKill_msgQ (a : Actor) : (apiKill a).1.msgQ = a.msgQ := by
 theorem opTreeTaken_sim (a : Actor) (s : St) (h : Inv a s) : Sim next Inv s (opTreeTaken a) := by
   unfold opTreeTaken
   simp only []
-  refine ⟨s, by simp, ?_⟩
-  rcases h with h | ⟨hs, hx⟩
-  · left
-    split
-    · simpa [apiKill_phase] using h
-    · simpa using h
-  · right
-    split
-    · refine ⟨by simpa [apiKill_phase] using hs, ?_, ?_, ?_⟩
-      · intro hk; exact apiKill_sigVal_mono _ (hx.kill hk)
-      · simpa [apiKill_stopVal] using hx.stop
-      · simpa [apiKill_msgQ] using hx.drain
-    · exact ⟨by simpa using hs, by simpa using hx.kill, by simpa using hx.stop, by simpa using hx.drain⟩
+  split
+  · cases hk : (apiKill { a with sup := none }).2 with
+    | false =>
+      refine ⟨s, by simp [hk], ?_⟩
+      rcases h with h | ⟨hs, hx⟩
+      · left; simpa [apiKill_phase] using h
+      · right
+        refine ⟨by simpa [apiKill_phase] using hs, ?_, ?_, ?_⟩
+        · intro hk'; exact apiKill_sigVal_mono _ (hx.kill hk')
+        · simpa [apiKill_stopVal] using hx.stop
+        · simpa [apiKill_msgQ] using hx.drain
+    | true =>
+      refine ⟨{ s with killed := true }, by simp [hk, accepts_cons], ?_⟩
+      rcases h with h | ⟨hs, hx⟩
+      · left; simpa [apiKill_phase] using h
+      · right
+        refine ⟨by simpa [apiKill_phase] using hs, ?_, ?_, ?_⟩
+        · intro _; exact apiKill_ok_sigVal _ hk
+        · simpa [apiKill_stopVal] using hx.stop
+        · simpa [apiKill_msgQ] using hx.drain
+  · refine ⟨s, by simp, ?_⟩
+    rcases h with h | ⟨hs, hx⟩
+    · left; simpa using h
+    · right
+      exact ⟨by simpa using hs, by simpa using hx.kill, by simpa using hx.stop, by simpa using hx.drain⟩
 
 theorem Inv_api {a a' : Actor} {s s' : St} (hp : a'.phase = a.phase) (hs : s'.stage = s.stage)
     (hx : Aux a s → Aux a' s') (h : Inv a s) : Inv a' s' := by
@@ -620,6 +685,16 @@ theorem envOp_sim (a : Actor) (s : St) (op : AOp) (h : Inv a s) : Sim next Inv s
     · exact ⟨s, by simp [accepts_cons], h.congr (by rfl) (by rfl) (by rfl) (by rfl)⟩
     · exact ⟨s, by simp [accepts_cons], h⟩
   | treeTaken => exact opTreeTaken_sim a s h
+  | link p ok =>
+    simp only [Actor.envOp, opLink]
+    split
+    · exact ⟨s, rfl, h⟩
+    · exact ⟨s, by simp, h.congr (by rfl) (by rfl) (by rfl) (by rfl)⟩
+  | unlink p =>
+    simp only [Actor.envOp, opUnlink]
+    split
+    · exact ⟨s, by simp, h.congr (by rfl) (by rfl) (by rfl) (by rfl)⟩
+    · exact ⟨s, rfl, h⟩
   | kidAdd c => exact ⟨s, rfl, h.congr (by rfl) (by rfl) (by rfl) (by rfl)⟩
   | kidDel c => exact ⟨s, rfl, h.congr (by rfl) (by rfl) (by rfl) (by rfl)⟩
   | call k =>
@@ -643,6 +718,7 @@ theorem envOp_sim (a : Actor) (s : St) (op : AOp) (h : Inv a s) : Sim next Inv s
 theorem stepCore_sim (a : Actor) (s : St) (op : AOp) (h : Inv a s) : Sim next Inv s (a.stepCore op) := by
   cases op with
   | spawn sup name nameFree isLocal supOk => exact opSpawn_sim a s sup name nameFree isLocal supOk h
+  | spawnInstant sup name nameFree isLocal => exact opSpawnInstant_sim a s sup name nameFree isLocal h
   | pollSpawn supOk => exact opPollSpawn_sim a s supOk h
   | dropSpawn => exact opDropSpawn_sim a s h
   | poll => exact Sim.pollMark next next_polled (opPoll_sim a s h)
